@@ -52,6 +52,15 @@ def record(cid, chart, target, track_kind, form, s, e):
     bpm = chart.sync_track.bpm_events
     notes = [limbs(td_us(ev.timestamp)) for ev in tr.note_events] if tr is not None else []
     ends = [limbs(td_us(ev.end_timestamp)) for ev in tr.note_events] if tr is not None else []
+    # "a tick bound means the tempo-map time of that tick" - and so does a note's start: the un-hinted query at the note's own
+    # tick (and at its end tick), next to what the event stores; a rate whose bounds and notes live on two clocks is no rate
+    def _q(t):
+        try:
+            return limbs(td_us(bpm.timestamp_at_tick_no_optimize_return(t)))
+        except Exception:  # noqa: BLE001 - judged by C11 / C15
+            return []
+    noteq = [_q(int(ev.tick)) for ev in tr.note_events] if tr is not None else []
+    endq = [_q(int(ev.end_tick)) for ev in tr.note_events] if tr is not None else []
     if form in ("tick", "tick-tick"):
         S = td_us(bpm.timestamp_at_tick_no_optimize_return(s))
     elif form in ("time", "time-time"):
@@ -67,7 +76,7 @@ def record(cid, chart, target, track_kind, form, s, e):
         eomit, E = True, 0       # TLC takes the maximum of the notes' end times
     raised, v = call(chart, inst, diff, form, s, e)
     num, den = (float(v).as_integer_ratio() if v is not None else (0, 1))
-    return {"id": cid, "props": ["C16"], "track": track_kind, "form": form, "notes": notes, "ends": ends, "eomit": eomit, "S": limbs(S), "E": limbs(E),
+    return {"id": cid, "props": ["C16"], "track": track_kind, "form": form, "notes": notes, "ends": ends, "noteq": noteq, "endq": endq, "eomit": eomit, "S": limbs(S), "E": limbs(E),
             "raised": raised, "num": limbs(num), "den": limbs(den), "args": [s, e]}
 
 
@@ -166,6 +175,31 @@ def run(ctx):
             info[rec["id"]] = {"case": case, "track": kind, "form": form, "s": s, "e": e, "iso": False}
             ctx.evaluations += 1
             ctx.distinct([case["sync"], ticks, kind, form, s, e])
+    # lifetimes: every chart freed at once and the next one of the SAME SHAPE (as many notes, other ticks and ends) parsed right
+    # after it - whatever a rate query leaves behind in the process must not answer for an object that no longer exists
+    # (seeded/C16j-last-note-end-memo-keyed-by-id: a memo keyed by (id(track), number of notes))
+    import gc
+    import io
+    from chartparse.chart import Chart
+    for k in range(ctx.pick(40, 400)):
+        n = r.choice([1, 2, 3, 5, 8])
+        for j in range(4):
+            ticks = sorted(r.sample(range(0, 4000), n))
+            body = []
+            for t in ticks:
+                body.append(("N", t, r.randrange(5), r.choice([0, 0, 10, 500, 5000])))
+            case = {"id": f"life{k}-{j}", "res": 192, "sync": [("B", 0, 120000), ("TS", 0, 4)], "events": [],
+                    "tracks": {"ExpertSingle": body, "HardSingle": [("S", 0, 5)]}}
+            chart = Chart.from_file(io.StringIO(tm.case_text(case)))
+            form = r.choice(["none", "tick", "time"])
+            s_ = 0 if form != "tick" else r.choice([0] + ticks)
+            rec = record(f"life{k}-{j}", chart, targets["with-notes"], "with-notes", form, s_, 0)
+            recs.append(rec)
+            info[rec["id"]] = {"case": case, "track": "with-notes", "form": form, "s": s_, "e": 0, "iso": False,
+                               "history": "parsed right after a chart of the same shape was freed"}
+            ctx.evaluations += 1
+            del chart
+            gc.collect()
     by_id = {x["id"]: x for x in recs}
     for rid, p, clause in ctx.validate(recs):
         ctx.violation(clause, {"kind": "nps", "info": info[rid], "record": by_id[rid]}, key=clause + "|" + by_id[rid]["form"])
